@@ -95,6 +95,8 @@ def run(ctx: Ctx) -> None:
     acct_rule(ctx, "R07.pen", penalty_only=True)
     from ..wiring import wiring_rule
     wiring_rule(ctx, "R07.wire", fields=("miss_penality", "performance_metrics"))
+    from ..wiring import metrics_identity_rule
+    metrics_identity_rule(ctx, "R07.metrics")
     order_rule(ctx, "R07.order")
     depth_rule(ctx, "R07.depth")
     src_rule(ctx, "R07.src")
